@@ -339,8 +339,11 @@ def mk_Wavelet(rng, ishape, maxn):
     ishape = ishape or _shape(rng, int(rng.integers(1, 4)), maxn + 3)
     if len(ishape) > 3:
         return None
+    ax = _axes_subset(rng, len(ishape))
+    if ax is not None and rng.random() < 0.4:
+        ax = [int(a) for a in rng.permutation(ax)]
     d = {"op": "Wavelet", "ishape": ishape, "oshape": None,
-         "axes": _axes_subset(rng, len(ishape)), "wave": pick(rng, WAVES),
+         "axes": ax, "wave": pick(rng, WAVES),
          "level": pick(rng, [None, None, 1, 2])}
     d["oshape"] = wavelet_coeff_shape(ishape, d["wave"], d["axes"], d["level"])
     return d
